@@ -160,6 +160,13 @@ func DefaultParamSets(k Kind) []Params {
 				mod(1, func(b []byte) { b[3] |= 0x40 }),                // general_profile_space 1
 				mod(0, func(b []byte) { b[3] |= 0x80 }),                // general_profile_space 2
 				mod(1, func(b []byte) { b[3] |= 0xc0 }),                // general_profile_space 3
+				// the range-extension constraint flags that follow the four source flags
+				mod(0, func(b []byte) { b[8] |= 0x0c }),               // max 12 bit, max 10 bit
+				mod(1, func(b []byte) { b[8] |= 0x03; b[9] |= 0x80 }), // max 8 bit, max 4:2:2, max 4:2:0
+				mod(0, func(b []byte) { b[9] |= 0x78 }),               // monochrome, intra, one picture only, lower bit rate
+				// (max 14 bit exists in the high-throughput profiles only; elsewhere the bit is reserved)
+				mod(1, func(b []byte) { b[3] = b[3]&0xe0 | 5; b[9] |= 0x0c }),
+				mod(1, func(b []byte) { b[8] |= 0x04; b[9] |= 0x08 }), // max 10 bit + lower bit rate
 			)
 		}
 	case AV1:
